@@ -4,7 +4,7 @@ import numpy as np
 from .. import alphabet as al
 from ..core import Obs, gb, gshell, hvec
 from ..ref.evalref import BasisEvaluator
-from ..ref.shells import nbasis
+from ..ref.shells import RefShell, nbasis
 
 ID = "C05"
 ENGINE = "E1 product-space explorer"
@@ -73,6 +73,9 @@ def configs(tier, seed):
                     "npts": npts})
         out.append({"kind": "basis", "n": 2, "start": 0, "types": ["spherical", "cartesian"], "tr": ("none", "rect")[npts % 2],
                     "npts": npts})
+    for ls, tp in (((0, 2, 1), ("cartesian", "spherical", "cartesian")), ((3, 1, 0), ("spherical", "spherical", "cartesian")),
+                   ((1, 1, 4), ("cartesian", "cartesian", "spherical"))):
+        out.append({"kind": "basis", "alias": 1, "ls": list(ls), "types": list(tp), "tr": "none", "npts": 8, "n": 3, "start": 0})
     for n in (2, 3, 4):
         for st in ([0] if tier == "quick" else [0, 1, 2, 3, 4, 5]):
             tps = al.type_patterns(n)
@@ -86,6 +89,12 @@ def configs(tier, seed):
 
 
 def build(cfg):
+    from .. import core
+
+    core.ALIAS_POOL = {} if cfg.get("alias") else None
+    if cfg.get("alias"):  # shells of different l on the same exponent / coefficient array objects
+        cs = al.molecule_centers(3, tag="ev-mol")
+        return [RefShell(l, cs[i], (0.4, 1.9), [[0.6, 0.3], [0.5, -0.8]], cfg["types"][i]) for i, l in enumerate(cfg["ls"])]
     if cfg["kind"] == "single":
         return [al.shell(cfg["l"], al.generic_center("A"), cfg["K"], cfg["M"], cfg["t"], pat=cfg["pat"])]
     cs = al.molecule_centers(cfg["n"], tag="ev-mol")
